@@ -244,3 +244,65 @@ class C13PlainSubclass(_nnx.Linear):
 
 
 C13_USER_CLASSES = (C13InheritedLinear, C13InheritedLayerNorm, C13OverridingLinear, C13PlainSubclass)
+
+
+# ---- C11: opset-gated components inside an ONNX function body ----
+_C11_RMS = _nnx.RMSNorm(6, rngs=_nnx.Rngs(1))
+
+
+@onnx_function
+def c11_gated_body(v):
+    import jax
+    from jax import lax
+    import jax.numpy as jnp
+
+    return _C11_RMS(v) + jax.nn.silu(v) + lax.dynamic_update_slice(v, jnp.ones((1, 2), v.dtype), (0, 1))
+
+
+def c11_outer(x):
+    return c11_gated_body(x) * 0.5 + c11_gated_body(x + 1.0)
+
+
+# ---- C09: module instances whose float64 parameters differ below float32 resolution ----
+def _c09_scale_call(self, x):
+    import jax.numpy as jnp
+
+    w = jnp.asarray(self.w.value, dtype=x.dtype)
+    return jnp.tanh(x) * w + w
+
+
+@onnx_function(unique=True)
+class C09UniqueScale(_nnx.Module):
+    def __init__(self, w):
+        self.w = _nnx.Param(w)
+
+    __call__ = _c09_scale_call
+
+
+@onnx_function
+class C09Scale(_nnx.Module):
+    def __init__(self, w):
+        self.w = _nnx.Param(w)
+
+    __call__ = _c09_scale_call
+
+
+class C09PlainScale(_nnx.Module):
+    def __init__(self, w):
+        self.w = _nnx.Param(w)
+
+    __call__ = _c09_scale_call
+
+
+C09_W = np.array([0.5, 0.625, 0.75], np.float64)  # spacing of float32 in [0.5, 1) is 6e-8
+C09_W_CLOSE = C09_W + 2e-8  # the same float32 values, different float64 values
+
+
+def c09_close_instances(cls):
+    import jax.numpy as jnp
+
+    from vlib import registry
+
+    with registry.x64(True):  # float64 device arrays, as in a session that works in double precision
+        a, b = cls(jnp.asarray(C09_W, dtype=jnp.float64)), cls(jnp.asarray(C09_W_CLOSE, dtype=jnp.float64))
+    return lambda x: (b(x) - a(x), a(x) + b(x) * 3.0)
